@@ -1,6 +1,8 @@
 // Package simrt is the tiny runtime imported by generated (overlay-only) copies of dskit files.
-// Outside a simulation run Hook is nil and Y does nothing.
+// Outside a simulation run the hooks are nil: Y does nothing and Sel.Select is an ordinary select.
 package simrt
+
+import "reflect"
 
 // Hook is installed by the simulator for the duration of one run.
 var Hook func(site string)
@@ -10,4 +12,77 @@ func Y(site string) {
 	if h := Hook; h != nil {
 		h(site)
 	}
+}
+
+// SelHook is installed by the simulator for the duration of one run. Given the site of a
+// receive-only select statement with n cases it returns the order in which the cases are polled
+// (a permutation of 0..n-1), or nil to leave the choice to the Go runtime.
+var SelHook func(site string, n int) []int
+
+// Sel carries the value received by a rewritten select statement (tools/vtool sel):
+//
+//	select { case <-a: A; case v := <-b: B }
+//
+// becomes
+//
+//	switch __r, __c0, __c1 := new(simrt.Sel), a, b; __r.Select(site, __c0, __c1) {
+//	case 0: A
+//	case 1: v := simrt.Val(__c1, __r); B
+//	}
+//
+// Go's select picks pseudo-randomly among the ready cases from a generator user code cannot seed;
+// here the simulator decides the polling order, so which ready case proceeds is part of the
+// replayable schedule. Every order is a legal behaviour of the original statement. When no case is
+// ready the goroutine blocks in an ordinary (reflect) select over the same channels.
+type Sel struct {
+	V  reflect.Value
+	OK bool
+}
+
+func (r *Sel) Select(site string, chans ...any) int {
+	n := len(chans)
+	vals := make([]reflect.Value, n)
+	for i, c := range chans {
+		vals[i] = reflect.ValueOf(c)
+	}
+	if h := SelHook; h != nil {
+		if order := h(site, n); order != nil {
+			for _, i := range order {
+				if vals[i].IsNil() {
+					continue
+				}
+				x, ok := vals[i].TryRecv()
+				if x.IsValid() {
+					r.V, r.OK = x, ok
+					return i
+				}
+			}
+		}
+	}
+	cases := make([]reflect.SelectCase, n)
+	for i := range cases {
+		cases[i] = reflect.SelectCase{Dir: reflect.SelectRecv, Chan: vals[i]}
+	}
+	i, x, ok := reflect.Select(cases)
+	r.V, r.OK = x, ok
+	return i
+}
+
+// Val returns the received value with the element type of ch.
+func Val[T any](ch <-chan T, r *Sel) T {
+	v, _ := Val2(ch, r)
+	return v
+}
+
+// Val2 is the two-value receive form.
+func Val2[T any](ch <-chan T, r *Sel) (T, bool) {
+	var zero T
+	if !r.V.IsValid() {
+		return zero, r.OK
+	}
+	x := r.V.Interface()
+	if x == nil {
+		return zero, r.OK
+	}
+	return x.(T), r.OK
 }
